@@ -23,7 +23,7 @@ RULE = ("(a) fluid reference: networks containing PS nodes (sharing capacity 1-3
         "and a one-server FIFO ciw.Node fed with the same arrivals and per-customer requirements empty at the same instants.  "
         "Non-trivial (a): >= 3 customers overlapping in service at a PS node; distinct by digest.")
 ASSUMPTIONS = ["tie-free inputs (continuous distributions); tolerance 1e-9 relative on predicted dates"]
-TECHNIQUE = 'property-based testing against reference models: exact-rational fluid PS model (tie-free), tie-robust integration of received work, and metamorphic PS-vs-FIFO busy periods'
+TECHNIQUE = 'property-based testing against reference models: exact-rational fluid PS model (tie-free), tie-robust integration of received work (also at sharing capacities of 250-300 and at clock values of 2^20-2^30), and metamorphic PS-vs-FIFO busy periods'
 WALL = {"quick": 150, "thorough": 540}
 
 ALLOWED = ["ps", "inf", "priorities", "batching", "routing_objects", "self_loops", "cc_after", "process_routing", "discipline"]
